@@ -319,6 +319,47 @@ Definition isinstance (n : nkind) (cls : nkind) : bool :=
   | _, _ => false
   end.
 
+(* AlgoStack.__call__ and Or.__call__ over an arbitrary algo runner (AlgoStack has two modes:
+   the plain one returns at the first False; the other, taken when any algo carries a
+   run_always attribute, keeps going but only calls the algos whose run_always is true) *)
+Section StackGo.
+Variable run : algo -> tree -> result (algo * bool * tree).
+Variable has_ra : bool.
+
+Fixpoint stack_go (l : list algo) (res : bool) (tr : tree) : result (list algo * bool * tree) :=
+  match l with
+  | [] => Ok ([], res, tr)
+  | x :: l' =>
+    if res then
+      '(x', b, tr) <- run x tr ;;
+      if negb b && negb has_ra then Ok (x' :: l', false, tr)
+      else
+        '(l'', res, tr) <- stack_go l' b tr ;;
+        Ok (x' :: l'', res, tr)
+    else
+      match x with
+      | AAlways true _ =>
+        '(x', _, tr) <- run x tr ;;
+        '(l'', res, tr) <- stack_go l' false tr ;;
+        Ok (x' :: l'', res, tr)
+      | _ =>
+        '(l'', res, tr) <- stack_go l' false tr ;;
+        Ok (x :: l'', res, tr)
+      end
+  end.
+
+Fixpoint or_go (l : list algo) (res : bool) (tr : tree) : result (list algo * bool * tree) :=
+  match l with
+  | [] => Ok ([], res, tr)
+  | x :: l' =>
+    '(x', b, tr) <- run x tr ;;
+    '(l'', res, tr) <- or_go l' (res || b) tr ;;
+    Ok (x' :: l'', res, tr)
+  end.
+End StackGo.
+
+Definition is_always (x : algo) : bool := match x with AAlways _ _ => true | _ => false end.
+
 Section RunAlgo.
 Variable e : env.
 Variable p : list nat.       (* path of the target strategy *)
@@ -716,39 +757,9 @@ Fixpoint run_algo (a : algo) (tr : tree) {struct a} : result (algo * bool * tree
   | ANot a1 =>
     '(a1', b, tr) <- run_algo a1 tr ;; Ok (ANot a1', negb b, tr)
   | AOr l =>
-    let fix go (l : list algo) (res : bool) (tr : tree) : result (list algo * bool * tree) :=
-      match l with
-      | [] => Ok ([], res, tr)
-      | x :: l' =>
-        '(x', b, tr) <- run_algo x tr ;;
-        '(l'', res, tr) <- go l' (res || b) tr ;;
-        Ok (x' :: l'', res, tr)
-      end in
-    '(l', b, tr) <- go l false tr ;; Ok (AOr l', b, tr)
+    '(l', b, tr) <- or_go run_algo l false tr ;; Ok (AOr l', b, tr)
   | AStack l =>
-    let has_ra := existsb (fun x => match x with AAlways _ _ => true | _ => false end) l in
-    let fix go (l : list algo) (res : bool) (tr : tree) : result (list algo * bool * tree) :=
-      match l with
-      | [] => Ok ([], res, tr)
-      | x :: l' =>
-        if res then
-          '(x', b, tr) <- run_algo x tr ;;
-          if negb b && negb has_ra then Ok (x' :: l', false, tr)      (* plain mode: return False at once *)
-          else
-            '(l'', res, tr) <- go l' b tr ;;
-            Ok (x' :: l'', res, tr)
-        else
-          match x with
-          | AAlways true _ =>
-            '(x', _, tr) <- run_algo x tr ;;
-            '(l'', res, tr) <- go l' false tr ;;
-            Ok (x' :: l'', res, tr)
-          | _ =>
-            '(l'', res, tr) <- go l' false tr ;;
-            Ok (x :: l'', res, tr)
-          end
-      end in
-    '(l', b, tr) <- go l true tr ;; Ok (AStack l', b, tr)
+    '(l', b, tr) <- stack_go run_algo (existsb is_always l) l true tr ;; Ok (AStack l', b, tr)
   | AAlways flag a1 =>
     '(a1', b, tr) <- run_algo a1 tr ;; Ok (AAlways flag a1', b, tr)
   | ASelectTypes inc exc =>
